@@ -24,6 +24,7 @@ From Coq Require Import ZArith List Bool Reals Lra Permutation.
 From Coquelicot Require Import Coquelicot.
 From BZ Require Import Base.Ops Gen.Point Gen.Affine Gen.Line Gen.Quad Gen.Cubic Hand.Shoelace Proofs.C10 Proofs.C10pos Proofs.C10shapes Hand.Shapes Gen.Shapes Proofs.Bridge Proofs.C10float Base.FloatErr Proofs.C01float.
 Import ListNotations.
+From BZ Require Proofs.C10path.
 From BZ Require Proofs.C16space.
 From BZ Require Gen.PathOps Proofs.Bridge5.
 From BZ Require Hand.Sample Proofs.C04 Proofs.C16 Proofs.C17 Proofs.C10flat Proofs.C10flat2.
@@ -312,6 +313,27 @@ Proof. exact @C16space.gentle_cubic_flatten_area_error. Qed.
 Theorem C10_gentle_cubic_flatten_area_error_10 :
   forall (s : seg4 R) (m M : R), 0 < m -> (forall u : R, 0 <= u <= 1 -> m <= C04.cubic_speed s u <= M) -> M <= 2 * m -> forall (cap : nat) (d : R) (es : list Sample.edge), 0 < d <= 8 -> C10flat.cubic_arclen s 0 1 <= 70000 -> Sample.Cubic_flatten ROps cap s d = Sample.Ok es -> Rabs (Cubic_area ROps s - sum_line_areas (map fst es)) <= 10 * C10flat.cubic_arclen s 0 1.
 Proof. exact @C16space.gentle_cubic_flatten_area_error_10. Qed.
+Theorem C10_gentle_quad_flatten_fine :
+  forall (s : seg3 R) (m M : R), 0 < m -> (forall u : R, 0 <= u <= 1 -> m <= C04.quad_speed s u <= M) -> M <= 2 * m -> forall (cap : nat) (d : R) (es : list Sample.edge), 0 < d -> ~ Quad_length ROps s < d -> Sample.Quad_flatten ROps cap s d = Sample.Ok es -> exists ts : list R, C17.param_list ts /\ map fst es = C10flat.chords_of (Quad_pointAtTime ROps s) ts /\ S (length es) = length ts /\ C10flat.fine_partition_01 (C10flat.quad_arclen s) (M * (d / Quad_length ROps s)) ts.
+Proof. exact @C10path.gentle_quad_flatten_fine. Qed.
+Theorem C10_gentle_quad_flatten_area_error :
+  forall (s : seg3 R) (m M : R), 0 < m -> (forall u : R, 0 <= u <= 1 -> m <= C04.quad_speed s u <= M) -> M <= 2 * m -> forall (cap : nat) (d : R) (es : list Sample.edge), 0 < d -> Sample.Quad_flatten ROps cap s d = Sample.Ok es -> Rabs (Quad_area ROps s - sum_line_areas (map fst es)) <= 2001 / 1000 * d / 4 * C10flat.quad_arclen s 0 1.
+Proof. exact @C10path.gentle_quad_flatten_area_error. Qed.
+Theorem C10_gentle_quad_flatten_area_error_10 :
+  forall (s : seg3 R) (m M : R), 0 < m -> (forall u : R, 0 <= u <= 1 -> m <= C04.quad_speed s u <= M) -> M <= 2 * m -> forall (cap : nat) (d : R) (es : list Sample.edge), 0 < d <= 1999 / 100 -> Sample.Quad_flatten ROps cap s d = Sample.Ok es -> Rabs (Quad_area ROps s - sum_line_areas (map fst es)) <= 10 * C10flat.quad_arclen s 0 1.
+Proof. exact @C10path.gentle_quad_flatten_area_error_10. Qed.
+Theorem C10_flattened_path_signed_area_error :
+  forall (cap : nat) (d : R) (segs : list (segment R * option (segment R))) (ls : list (list (seg2 R * option (segment R)))), 0 < d <= 8 -> List.Forall C10path.gentle_seg (map fst segs) -> C10flat.closed_seg_chain (map fst segs) -> Forall2 (fun (s : Sample.tseg) (l : list Sample.edge) => Sample.seg_flatten ROps cap s d = Sample.Ok l) segs ls -> Rabs (signed_area_lines ROps (map fst (concat ls)) - - C10flat.sum_seg_areas (map fst segs)) <= 10 * C10flat.total_length (map fst segs).
+Proof. exact @C10path.flattened_path_signed_area_error. Qed.
+Theorem C10_path_flatten_signed_area_error :
+  forall (cap : nat) (d : R) (segs : list (segment R * option (segment R))) (closed : bool) (es : list Sample.edge) (cl : bool), 0 < d <= 8 -> List.Forall C10path.gentle_seg (map fst segs) -> C10flat.closed_seg_chain (map fst segs) -> Sample.path_flatten ROps cap segs closed d = Sample.Ok (es, cl) -> Rabs (signed_area_lines ROps (map fst es) - - C10flat.sum_seg_areas (map fst segs)) <= 10 * C10flat.total_length (map fst segs).
+Proof. exact @C10path.path_flatten_signed_area_error. Qed.
+Theorem C10_dpath_flatten_area :
+  exists es : list Sample.edge, Sample.path_flatten ROps 256 C10path.dpath true 8 = Sample.Ok (es, true) /\ Rabs (signed_area_lines ROps (map fst es) - -6000) <= 10 * 300.
+Proof. exact @C10path.dpath_flatten_area. Qed.
+Theorem C10_qpath_flatten_area :
+  exists es : list Sample.edge, Sample.path_flatten ROps 64 C10path.qpath true 8 = Sample.Ok (es, true) /\ Rabs (signed_area_lines ROps (map fst es) - - (5000 / 3)) <= 10 * (C10flat.quad_arclen C10path.qarch 0 1 + 100).
+Proof. exact @C10path.qpath_flatten_area. Qed.
 
 Print Assumptions C10_area_is_integral_line.
 Print Assumptions C10_area_is_integral_quad.
@@ -407,3 +429,10 @@ Print Assumptions C10_Path_direction_gen.
 Print Assumptions C10_signed_area_hand.
 Print Assumptions C10_gentle_cubic_flatten_area_error.
 Print Assumptions C10_gentle_cubic_flatten_area_error_10.
+Print Assumptions C10_gentle_quad_flatten_fine.
+Print Assumptions C10_gentle_quad_flatten_area_error.
+Print Assumptions C10_gentle_quad_flatten_area_error_10.
+Print Assumptions C10_flattened_path_signed_area_error.
+Print Assumptions C10_path_flatten_signed_area_error.
+Print Assumptions C10_dpath_flatten_area.
+Print Assumptions C10_qpath_flatten_area.
